@@ -94,19 +94,19 @@ def res : Res → Json
   | .value d a => Json.arr #[desc d, nat a]
   | .keyError f => Json.arr #[Json.str "keyError", nat f]
 
-def ev : Ev → Json
-  | .ran i d a => Json.arr #[Json.str "ran", nat i, desc d, nat a]
-  | .callback cb r ok => Json.arr #[Json.str "cb", nat cb, res r, Json.bool ok]
-  | .versionChanged o n => Json.arr #[Json.str "verChanged", nat o, nat n]
-  | .wrongVer s r => Json.arr #[Json.str "wrongVer", nat s, nat r]
-  | .unknownId i f => Json.arr #[Json.str "unknownId", nat i, nat f]
-  | .blocked e s => Json.arr #[Json.str "blocked", nat e, nat s]
-  | .callbackOpen cb => Json.arr #[Json.str "cbOpen", nat cb]
-
 def tableJson (cls : ClassDef) (e : Nat) : Json :=
   Json.arr ((keys cls).filterMap fun k =>
     (funcName cls e k).map fun nm =>
       Json.arr #[nat k.obj, name k.orig, name nm, optNat (callId cls e k)]).toArray
+
+def ev (cls : ClassDef) : Ev → Json
+  | .ran i d a => Json.arr #[Json.str "ran", nat i, desc d, nat a]
+  | .callback cb r ok => Json.arr #[Json.str "cb", nat cb, res r, Json.bool ok]
+  | .versionChanged o n he ht => Json.arr #[Json.str "verChanged", nat o, nat n, nat he, tableJson cls ht]
+  | .wrongVer s r => Json.arr #[Json.str "wrongVer", nat s, nat r]
+  | .unknownId i f => Json.arr #[Json.str "unknownId", nat i, nat f]
+  | .blocked e s => Json.arr #[Json.str "blocked", nat e, nat s]
+  | .callbackOpen cb => Json.arr #[Json.str "cbOpen", nat cb]
 
 def state (n : Node) : Json :=
   Json.mkObj [
@@ -156,7 +156,7 @@ def step (st : St) (j : Json) : Except String (St × Json) := do
     return ({ st with node := n }, Json.mkObj [("ok", Json.bool true)])
   | "apply" =>
     let (n, evs) := PSO.Versions.step st.node .tick
-    return ({ st with node := n }, Json.mkObj [("ev", Json.arr (evs.map ev).toArray), ("state", state n)])
+    return ({ st with node := n }, Json.mkObj [("ev", Json.arr (evs.map (ev n.cls)).toArray), ("state", state n)])
   | "setver" =>
     let r := match setCodeVersion st.node (← jNat (← field j "v")) with
       | .tooHigh s q => Json.arr #[Json.str "tooHigh", nat s, nat q]
@@ -176,7 +176,7 @@ def step (st : St) (j : Json) : Except String (St × Json) := do
     | some d =>
       let n := loadDump st.node d clear
       let evs := loadDumpEvents st.node d clear
-      return ({ st with node := n }, Json.mkObj [("ev", Json.arr (evs.map ev).toArray), ("state", state n)])
+      return ({ st with node := n }, Json.mkObj [("ev", Json.arr (evs.map (ev n.cls)).toArray), ("state", state n)])
   | "compact" =>
     match st.dump with
     | none => throw "compact: no dump"
